@@ -10,7 +10,7 @@ from typing import Union, List, Optional, Dict
 
 # Local imports
 from ...connect import Connectable
-from ...instance import _get_connref
+from ...instance import _get_connref, InstanceArray
 from ...instantiable import (
     io,
     Instantiable,
@@ -283,6 +283,14 @@ class ResolvePortRefs(ElabPass):
 
         # Copy any relevant attributes of the Port
         sig = self.copy_port(port)
+
+        if isinstance(portref.inst, InstanceArray):
+            # Each element of an Instance Array gets its own unconnected slice. Broadcasting a single
+            # port-wide signal would instead short the "unconnected" ports of all elements together.
+            if not isinstance(sig, Signal):
+                msg = f"Invalid `NoConn` connection to Bundle-valued port `{portref.portname}` of Instance Array `{portref.inst.name}`"
+                self.fail(msg)
+            sig.width = sig.width * portref.inst.n
 
         # Set the signal name, either from the NoConn or the instance/port names
         if noconn.name is not None:
